@@ -21,17 +21,18 @@ Components == {"err", "abort", "sp", "frameIndex", "ip", "curFrame",
                "stack.locals", "stack.above", "modulesCache", "globals", "pool.vms"}
 
 \* scripts of the harness library: number -> how the run ends
-Scripts == 1..21
+Scripts == 1..22
 Term(s) == CASE s = 1 -> "return" [] s = 2 -> "error-through-finally" [] s = 3 -> "recovered-panic" [] s = 4 -> "stack-overflow"
              [] s = 5 -> "frame-overflow" [] s = 6 -> "abort" [] s = 7 -> "tailstmt-throw" [] s = 8 -> "module-state"
              [] s = 9 -> "closures" [] s = 10 -> "error-in-finally" [] s = 11 -> "callback-error" [] s = 12 -> "deep-return"
              [] s = 15 -> "abort-in-callback"
+             [] s = 22 -> "return"                  \* catches runtime errors raised by the VM and derives new errors from them (e.New): the builtin error values are shared by the whole process and read by probe 15
              [] s = 20 -> "return"                  \* run with five arguments
              [] s = 21 -> "return"                  \* run with nil globals: stores into the globals the VM provides for that run
              [] s \in 16..19 -> "module-state"     \* object modules (bytes, sync-map, array) and nested values of a builtin module, changed in place
              [] s = 13 -> "abort" [] s = 14 -> "recovered-panic"      \* both while main is inside a try statement and a callee is running
 Ops == {"none-same-bytecode", "clear", "setbytecode", "clear+setbytecode"}
-Probes == 1..14
+Probes == 1..15
 
 \* what a run may leave dirty (everything it touched stays as it was when the run stopped)
 DirtyAfter(t) ==
